@@ -102,6 +102,11 @@ pub fn add_plan(rng: &mut Rng, profile: &str, tree: &Tree, inv: &mut Inv, oracle
     if profile != "hard" {
         return;
     }
+    // not every invocation of a faulty history is faulty itself: "fault, then the same command
+    // again without one" (recovery) needs a clean successor
+    if rng.chance(0.35) {
+        return;
+    }
     let nh = if rng.chance(0.75) { 1 } else { 2 };
     let readable_inputs: Vec<(String, usize)> = pred
         .inputs
